@@ -11,7 +11,7 @@ A failed predicate is a violation when re-running the same history fails again. 
 where the tags are the cause tags Lmm.tla raised on that history (situations in which the pinned commit is known to
 deviate: KNOWN_FINDINGS.jsonl) restricted to the ones that can explain this (kind, predicate); `cause=none` otherwise.
 """
-import json, os
+import json, os, time
 import vlib
 import lmm_common as L
 from lmm_common import O
@@ -47,12 +47,13 @@ def relevant(kind, pred):
 
 
 def tags_at(h, i):
+    """cause tags of the generator's (reference) system at operation i: only used for aborts, which TLC does not see"""
     o = h[i - 1]
     return set(o.get("flags", [])) | set(o.get("now", []))
 
 
-def signature(prop, h, i, kind, pred):
-    c = sorted(tags_at(h, i) & relevant(kind, pred))
+def signature(prop, tags, kind, pred):
+    c = sorted(set(tags) & relevant(kind, pred))
     return "%s:%s:%s:cause=%s" % (prop, kind, pred, "+".join(c) if c else "none")
 
 
@@ -61,21 +62,21 @@ def gen_params(prop, quick):
     if prop in ("C15", "C16"):
         return L.params(maxc=3 if quick else 5, minc=2, maxv=5 if quick else 8, len=20 if quick else 34,
                         cbounds=[0, 1, 2, 4, 7, 10, 10], vbounds=[-1, -1, 1, 3, 5], pens=[0, 1, 1, 2, 3],
-                        ws=[0, 1, 2, 2, 3, 4], lims=[-1, -1, -1, 2], caps=[2, 3])
+                        ws=[0, 1, 2, 2, 3, 4], lims=[-1, -1, -1, 2], caps=[2, 3], pols=[0, 1, 1, 1])
     if prop == "C17":
         return L.params(maxc=3 if quick else 5, minc=2, maxv=5 if quick else 8, len=26 if quick else 60,
                         cbounds=[0, 1, 2, 4, 7, 10, 10], vbounds=[-1, -1, 1, 3, 5], pens=[0, 1, 1, 2],
-                        ws=[1, 2, 2, 4], lims=[-1, -1, -1, 2], caps=[2, 3])
+                        ws=[1, 2, 2, 4], lims=[-1, -1, -1, 2], caps=[2, 3], pols=[0, 1, 1, 1, 1])
     return L.params(maxc=3 if quick else 4, minc=2, maxv=6 if quick else 9, len=24 if quick else 60,
                     cbounds=[1, 4, 10], vbounds=[-1, 3], pens=[0, 1, 1, 2], ws=[1, 2, 2, 2, 4],
-                    lims=[1, 1, 2, 2, 3, 4, -1], caps=[2, 3])
+                    lims=[1, 1, 2, 2, 3, 4, -1], caps=[2, 3], pols=[0, 1, 1, 1, 1])
 
 
 def ext_params(prop, par):
     """alphabets of the exhaustive extensions of base histories (small on purpose: every combination is replayed)"""
     p = dict(par)
-    p.update(len=3, cbounds=[0, 3, 10] if prop != "C18" else [3, 10], vbounds=[-1, 2], pens=[0, 1, 2], ws=[1, 2],
-             lims=[-1, 1], caps=[2], maxc=3, maxv=6)
+    p.update(len=3, cbounds=[0, 3] if prop != "C18" else [3], vbounds=[-1, 2], pens=[0, 1, 2] if prop != "C15" else [0, 2],
+             ws=[2] if prop == "C18" else [1, 2], lims=[1], pols=[1], caps=[2], maxc=3, maxv=6)
     return p
 
 
@@ -99,53 +100,53 @@ def nontrivial(prop, h, rec):
 
 # ------------------------------------------------------------------------------------------- evaluation of one batch
 def evaluate(ctx, prop, hists, tag):
-    """Replays the histories, lets TLC judge them; returns (hdr, recs, aborts, failures) where failures is the list of
-    (history index, op index, kind, predicate) relevant to `prop`, the first one per (history, kind, predicate)."""
+    """Replays the histories, lets TLC judge them; returns (hdr, recs, aborts, failures) where failures maps
+    (history index, kind, predicate) relevant to `prop` to (first operation index where it fails, cause tags)."""
     hdr, recs, aborts = L.run_driver(ctx, hists, tag=tag + "_drv")
     bad = L.validate(ctx, hists, hdr, recs, tag=tag + "_tv")
     fails = {}
-    for (h, i, k, w) in bad:
+    for (h, i, k, w), tags in bad.items():
         if w in PREDS[prop]:
             key = (h, k, w)
-            if key not in fails or i < fails[key]:
-                fails[key] = i
+            if key not in fails or i < fails[key][0]:
+                fails[key] = (i, tags)
     if prop == "C15":
         for h, ab in enumerate(aborts):
             for k, a in ab.items():
                 if a.get("bmf_error"):
                     continue          # the explicit error of the BMF solver is an allowed outcome (C16)
-                fails[(h, k, "Hang" if a["sig"] == 14 else "Abort")] = max(1, a["i"])
-    out = sorted((h, i, k, w) for (h, k, w), i in fails.items())
-    return hdr, recs, aborts, out
+                i = max(1, a["i"])
+                fails[(h, k, "Hang" if a["sig"] in (14, 24) else "Abort")] = (i, sorted(tags_at(hists[h], i)))
+    return hdr, recs, aborts, fails
 
 
-def report(ctx, prop, hists, recs, aborts, fails, origin):
+def report(ctx, prop, hists, recs, aborts, fails, origin_of):
     """Confirm by re-running each failing history, then report (violation or known finding, decided by the signature)."""
     if not fails:
         return
-    # one representative per signature is enough for a recorded finding; every unexplained failure is kept
+    # a few representatives per signature are enough for a recorded finding; every unexplained failure is kept
     by_sig = {}
-    for (h, i, k, w) in fails:
-        by_sig.setdefault(signature(prop, hists[h], i, k, w), []).append((h, i, k, w))
+    for (h, k, w), (i, tags) in sorted(fails.items()):
+        by_sig.setdefault(signature(prop, tags, k, w), []).append((h, k, w, i, tags))
     todo = []
-    for sig, lst in by_sig.items():
+    ctx.cov.setdefault("rejections_by_signature", {})
+    for sig, lst in sorted(by_sig.items()):
         known = any(f.get("status") == "known" and vlib._sig_match(f.get("signature", ""), sig) for f in ctx.findings)
-        ctx.cov.setdefault("rejections_by_signature", {})
         ctx.cov["rejections_by_signature"][sig] = ctx.cov["rejections_by_signature"].get(sig, 0) + len(lst)
-        todo += [(sig, x) for x in (lst[:2] if known else lst[:6])]
+        todo += [(sig, x) for x in (lst[:2] if known else lst[:8])]
     hs = sorted({x[0] for _, x in todo})
-    sub = [hists[h] for h in hs]
-    _, recs2, aborts2, fails2 = evaluate(ctx, prop, sub, "re_" + origin)
-    again = {(hs[h], i, k, w) for (h, i, k, w) in fails2}
-    for sig, (h, i, k, w) in todo:
-        if (h, i, k, w) not in again:
+    _, recs2, aborts2, fails2 = evaluate(ctx, prop, [hists[h] for h in hs], "re")
+    again = {(hs[h], k, w): v for (h, k, w), v in fails2.items()}
+    for sig, (h, k, w, i, tags) in todo:
+        if (h, k, w) not in again or again[(h, k, w)][0] != i:
             ctx.cov["unconfirmed_rejections"] = ctx.cov.get("unconfirmed_rejections", 0) + 1
             continue
         hist = hists[h]
         rec = {kk: recs[h][kk][i - 1] for kk in L.ALLKINDS}
         detail = "history (%s): %s\nfails at operation %d (%s) for system kind %s: predicate %s of spec/lmm/Lmm.tla\n" \
-                 "cause tags on this history: %s\nexact reference allocation of that solve: %s\nimplementation: %s\nabort: %s" % (
-                     origin, L.brief(hist), i, hist[i - 1]["op"], k, w, sorted(tags_at(hist, i)),
+                 "cause tags of the abstract system following the implementation: %s\n" \
+                 "exact reference allocation of that solve (generator): %s\nimplementation: %s\nabort: %s" % (
+                     origin_of(h), L.brief(hist), i, hist[i - 1]["op"], k, w, tags,
                      json.dumps(hist[i - 1].get("exp")), json.dumps({kk: (r or {}).get("f") for kk, r in rec.items()}),
                      json.dumps(aborts[h].get(k)))
         ctx.violation("%s: %s fails on system kind %s at operation %d of: %s" % (prop, w, k, i, L.brief(hist[:i])),
@@ -158,12 +159,12 @@ def report(ctx, prop, hists, recs, aborts, fails, origin):
 # ------------------------------------------------------------------------------------------- M
 def model_check(ctx, prop, bases, quick):
     """TLC explores Lmm.tla itself (histories merged): reference invariants; for C17 also the bookkeeping mirror."""
-    par = L.params(maxc=2, minc=2, maxv=3, len=3 if quick else 4, cbounds=[0, 2, 6], vbounds=[-1, 1], pens=[0, 1, 2],
+    par = L.params(maxc=3, minc=2, maxv=4, len=3 if quick else 5, cbounds=[0, 2, 6], vbounds=[-1, 1], pens=[0, 1, 2],
                    ws=[1, 2], lims=[-1, 1], caps=[2], bases=[L.strip(b) for b in bases])
     pf = os.path.join(ctx.scratch, "mc_params.json")
     json.dump(par, open(pf, "w"))
     r = vlib.tlc(os.path.join(L.LSPEC, "LmmGen.tla"), cfg=os.path.join(L.LSPEC, "LmmMC_ref.cfg"), env={"LMM_PARAMS": pf},
-                 timeout=900 if quick else 2400, workers=8)
+                 timeout=900 if quick else 2400, workers=8, xmx="4g")
     ctx.add_tlc(r)
     ctx.cov["mc_reference"] = {"status": r.status, "distinct": r.distinct, "generated": r.generated, "depth": r.diameter,
                                "wall_s": round(r.wall, 1),
@@ -229,57 +230,68 @@ def run(ctx, prop):
     quick = ctx.quick
     par = gen_params(prop, quick)
     _, seam = L.driver()
-    n_rand = {"C15": 420, "C16": 420, "C17": 360, "C18": 420}[prop] if quick else 6000
+    n_rand = {"C15": 300, "C16": 300, "C17": 260, "C18": 300}[prop] if quick else 6000
+    t0 = time.time()
     # ---- G: histories from the specification
     reg_names = sorted(L.REGRESSION)
     reg = L.annotate(ctx, [L.REGRESSION[n] for n in reg_names], "reg")
-    rnd = L.random_histories(ctx, par, n_rand, "rnd", nproc=12 if quick else 16, timeout=900 if quick else 2400)
+    rnd = L.random_histories(ctx, par, n_rand, "rnd", nproc=6 if quick else 16, timeout=900 if quick else 2400)
     fam = {"regression": reg, "random": rnd}
     if prop == "C17" and seam:
         fam["wrap"] = L.random_histories(ctx, dict(par, ff=[0, 0, 1], len=par["len"]), 60 if quick else 600, "ffr",
-                                         nproc=4 if quick else 8, timeout=900)
+                                         nproc=2 if quick else 8, timeout=900)
         fam["wrap"] = [h for h in fam["wrap"] if any(o["op"] == "ff" for o in h)]
-    # exhaustive extensions (every sequence of 2 operations + solve) of base systems: regression ones and random ones
-    bases = [b for b in (cut_after_solve(h, ctx.rng) for h in reg) if b]
+    # exhaustive extensions (every sequence of 2 operations + solve) of base systems: the regression systems as they are
+    # just before they go wrong (first solve), and random ones
+    def first_solve(h):
+        idx = [i for i, o in enumerate(h) if o["op"] == "solve"]
+        return h[:idx[0] + 1] if len(idx) >= 2 else None
+    bases = [b for b in (first_solve(h) for n, h in zip(reg_names, reg) if n in ("modset", "zerocap", "suspnorelease", "suspstaged")) if b]
+    if prop == "C18":
+        bases.append(L.annotate(ctx, [L.REGRESSION["suspnorelease"][:5] + [O("solve")]], "b18")[0])
     pool = [h for h in rnd if len([o for o in h if o["op"] == "solve"]) >= 2]
     ctx.rng.shuffle(pool)
     nb = 2 if quick else 12
     bases_r = [b for b in (cut_after_solve(h, ctx.rng) for h in pool[:nb]) if b]
-    ext, r_ext = L.extensions(ctx, bases[:4 if quick else 6] + bases_r, ext_params(prop, par), "ext",
-                              timeout=900 if quick else 2400)
+    ext, r_ext = L.extensions(ctx, bases + bases_r, ext_params(prop, par), "ext", timeout=900 if quick else 2400)
     fam["extensions"] = ext
-    ctx.cov["exhaustive_extension_bases"] = len(bases[:4 if quick else 6] + bases_r)
+    vlib.log("%s: generation %.1fs (%d random, %d extensions)" % (prop, time.time() - t0, len(rnd), len(ext)))
+    t0 = time.time()
+    ctx.cov["exhaustive_extension_bases"] = len(bases + bases_r)
     # ---- M
     guided = model_check(ctx, prop, bases[:3] + bases_r[:1], quick)
     if guided:
         fam["guided"] = L.annotate(ctx, guided, "guided")
     if prop == "C17":
         model_says_wrap = visited_model(ctx, quick)
-    # ---- T: the real systems, judged by TLC
-    total_fail = 0
-    for name in ("regression", "guided", "wrap", "random", "extensions"):
-        hs = fam.get(name) or []
-        if not hs:
-            continue
-        hdr, recs, aborts, fails = evaluate(ctx, prop, hs, name)
-        ctx.cov.setdefault("families", {})[name] = {"histories": len(hs), "failing_predicates": len(fails)}
-        ctx.cov["bmf_explicit_errors"] = ctx.cov.get("bmf_explicit_errors", 0) + \
-            sum(1 for ab in aborts for a in ab.values() if a.get("bmf_error"))
-        nsolve = 0
-        for n, h in enumerate(hs):
-            nt = nontrivial(prop, h, recs[n])
-            ctx.count(L.strip(h), nontrivial=nt)
-            nsolve += sum(1 for o in h if o["op"] == "solve")
-        ctx.cov["solves_checked"] = ctx.cov.get("solves_checked", 0) + nsolve * len(L.ALLKINDS)
-        ctx.cov["operations_checked"] = ctx.cov.get("operations_checked", 0) + sum(len(h) for h in hs) * len(L.KINDS)
-        if name in ("random", "regression"):
-            for n in (0, len(hs) // 2):
-                h = hs[n]
-                last = [i for i, o in enumerate(h) if o["op"] == "solve"][-1]
-                ctx.sample({"family": name, "history": L.brief(h), "exact_last_solve": h[last]["exp"],
-                            "impl_last_solve": {k: (recs[n][k][last] or {}).get("f") for k in L.ALLKINDS}}, limit=4)
-        total_fail += len(fails)
-        report(ctx, prop, hs, recs, aborts, fails, name)
+    vlib.log("%s: model checking %.1fs" % (prop, time.time() - t0))
+    # ---- T: the real systems, judged by TLC (one batch)
+    order = [n for n in ("regression", "guided", "wrap", "random", "extensions") if fam.get(n)]
+    hs, origin = [], []
+    for name in order:
+        hs += fam[name]
+        origin += [name] * len(fam[name])
+    t0 = time.time()
+    hdr, recs, aborts, fails = evaluate(ctx, prop, hs, "all")
+    vlib.log("%s: %d histories replayed and judged in %.1fs" % (prop, len(hs), time.time() - t0))
+    ctx.cov["families"] = {name: {"histories": len(fam[name]),
+                                  "failing": len({h for (h, k, w) in fails if origin[h] == name})} for name in order}
+    ctx.cov["bmf_explicit_errors"] = sum(1 for ab in aborts for a in ab.values() if a.get("bmf_error"))
+    for n, h in enumerate(hs):
+        ctx.count(L.strip(h), nontrivial=nontrivial(prop, h, recs[n]))
+    nsolve = sum(1 for h in hs for o in h if o["op"] == "solve")
+    ctx.cov["solves_checked"] = nsolve * len(L.ALLKINDS)
+    ctx.cov["operations_checked"] = sum(len(h) for h in hs) * len(L.KINDS)
+    for name in ("random", "extensions", "regression"):
+        idx = [n for n in range(len(hs)) if origin[n] == name]
+        for n in idx[:1] + idx[len(idx) // 2:len(idx) // 2 + 1]:
+            h = hs[n]
+            last = [i for i, o in enumerate(h) if o["op"] == "solve"][-1]
+            ctx.sample({"family": name, "history": L.brief(h), "exact_last_solve": h[last]["exp"],
+                        "impl_last_solve": {k: (recs[n][k][last] or {}).get("f") for k in L.ALLKINDS}}, limit=5)
+    t0 = time.time()
+    report(ctx, prop, hs, recs, aborts, fails, lambda h: origin[h])
+    vlib.log("%s: %d failing (history, kind, predicate) confirmed/reported in %.1fs" % (prop, len(fails), time.time() - t0))
     if prop == "C17":
         wrap_seen = any("wrap" in s for s in ctx.cov.get("rejections_by_signature", {}))
         ctx.cov["wraparound"] = {"seam": bool(seam), "model_predicts_defect": model_says_wrap,
